@@ -19,6 +19,10 @@ EXPLANATION = (
     "number of distinct values, and the end verdict fails iff the expression is false; the expression is 'count' + the "
     "rule after the field name. (O5.3) checks see a row only if all its cells passed - validate_row table. (O5.4) every "
     "attribute a check mutates while checking is re-initialised by its reset()."
+    " Added in rounds 6 and 7: (O5.4c) cleanup() of a check does not write the bookkeeping check_row /"
+    " check_at_end / reset work on. (O5.8) every Reader / Writer the package creates (GUI included) is closed on"
+    " every path, so the end-of-data verdict is always asked. (O5.9) a row the row writer refuses after validation"
+    " must not be registered by the checks (known finding)."
 )
 ASSUMPTIONS = ["Python's eval of the comparison text; dictionary look-up by tuple equality"]
 
